@@ -1764,7 +1764,13 @@ func (x *Exec) virtualOrdinal(st *State, fr *Frame, at ssa.Instruction, pat stri
 	if !found {
 		return 0, false
 	}
-	for i, s := range x.virtualSites(x.Top, pat, nil, 0) {
+	vs := x.virtualSites(x.Top, pat, nil, 0)
+	if rec := recordedCalls(x.TopName, pat); rec >= 0 && rec != len(vs) {
+		// the helpers brought call sites the recorded function did not have (or some were removed):
+		// nothing is renumbered
+		return 0, false
+	}
+	for i, s := range vs {
 		if s.in != at || len(s.chain) != len(chain) {
 			continue
 		}
